@@ -50,6 +50,11 @@ type history struct {
 	Core   bool    `json:"core"` // every statement is modelled exactly: values compared with the model too
 	Steps  []*step `json:"steps"`
 	Matrix string  `json:"matrix,omitempty"` // matrix history (matrix.go): kind:depth:width
+	// FuncVar: funcvar history (funcvar.go): holder:signature
+	FuncVar string `json:"funcvar,omitempty"`
+	// Defer (corpus files only): the exact input of a finding that is not yet registered in known_findings.json; while its
+	// key is not registered a failure is listed in report.json extra "deferred_corpus_failures" instead of being failed
+	Defer bool `json:"defer_until_registered,omitempty"`
 	Head   int     `json:"-"`                // leading steps always shown in a failure report
 	corpus bool
 	names  map[int]string // id -> gomacro name
@@ -942,6 +947,10 @@ func main() {
 		"are used up and 4..44 more, then *p = v / g / g = v / *p; then the operator sweep: every combination of {+= -= *= /= %= &= |= ^= &^= <<= >>= ++ --} x {constant operand: a plain one AND a special-cased one (0, 1, -1, powers of two, large shift counts); variable operand} x "+
 		"{15 numeric kinds} x {IntBind global declared before the address, boxed global declared after Env.Ints is full} x {statement at depth 0,1,2,3} is dealt out once (3 times thorough) over these histories as `x = v; stmt; x`, all reads compared with compiled Go; "+
 		"the Coq model replays every matrix history up to 6 evaluations after the address-of and every eighth (all, thorough) completely. "+
+		"funcvar histories (funcvar.go): calls through VALUES OF FUNCTION TYPE whose holder is re-assigned in later evaluations: signature shapes {0..3 parameters of int,string,bool,float64,uint8} x {0,1,2 results of int,string,bool,float64,uint8,[]int} "+
+		"(every call-site specialisation of fast/call*ret*.go) x holder {global var f T = lit, f := lit, var f T assigned later, global called/assigned through a pointer, field of a global struct, element of a global slice, local captured by closures}; "+
+		"callers call the holder from 0, 1, 2 closures below their body and in a loop, with constant and variable arguments; history: [call] / assign at top level / call / assign inside a function or through the pointer / call / call+assign+call in ONE evaluation / "+
+		"assign another variable / swap; all 72 shapes for the plain global holder and 10 random shapes per other holder (thorough: all x all); every call is a read compared with compiled Go. "+
 		"non-trivial: the history executes >=1 address-of an Ints slot and declares >=5 variables afterwards; distinct by SHA-256 of the sources")
 	wd := vh.NewWatchdog(rep, 10*time.Minute) // generous: go build of the oracle / the first fast.New() take minutes on a loaded machine
 
@@ -1005,9 +1014,38 @@ func main() {
 	for _, sp := range specs {
 		hist = append(hist, genMatrix(rng.Fork(), len(hist), sp))
 	}
+	// funcvar histories (funcvar.go): calls through values of function type whose holder is re-assigned later; own PRNG stream
+	funcvarDefect := false
+	registered := registeredKeys(os.Getenv("VERIF_DIR"))
+	{
+		ir := newInterp()
+		for _, src := range []string{"var fvp = func() int { return 1 }", "func fvg() int { return fvp() }", "fvg()", "fvp = func() int { return 2 }"} {
+			evalOne(ir, src)
+		}
+		o := evalOne(ir, "fvg()")
+		funcvarDefect = o.Status != 0 || o.Val != "2"
+		rep.Extra["defect_present:"+funcvarKey] = funcvarDefect
+		// once a finding is registered (fixed) its class is generated whatever the probe says: a regression fails
+		funcvarDefect = funcvarDefect && !registered[funcvarKey]
+	}
+	nFuncVar := 0
+	if a.N <= 0 || a.N >= 40 {
+		ir := newInterp()
+		evalOne(ir, "var fvout int")
+		evalOne(ir, "func fvt() int { f := func() { fvout = 5 }; { a := 1; { b := 2; { c := 3; f(); _, _, _ = a, b, c } } }; return fvout }")
+		o := evalOne(ir, "fvt()")
+		deepDefect := o.Status != 0 || o.Val != "5"
+		rep.Extra["defect_present:"+localDeepKey] = deepDefect
+		deepDefect = deepDefect && !registered[localDeepKey]
+		fv := funcVarHistories(vh.NewRng(a.Seed*2654435761+14), len(hist), a.Thorough(), funcvarDefect, deepDefect)
+		nFuncVar = len(fv)
+		hist = append(hist, fv...)
+	}
+	rep.Extra["funcvar_histories"] = nFuncVar
 	for i, h := range hist {
 		h.Idx = i
 	}
+	deferred := []string{}
 
 	// compiled-Go oracle for the generated histories
 	want := map[[2]int][2]string{}
@@ -1081,6 +1119,13 @@ func main() {
 					// declarations of further int-like globals (inputs.jsonl holds the complete history when it has at most 400 evaluations)
 					in["history_head"] = srcsUpTo(h, h.Head-1)
 					in["matrix"] = h.Matrix
+				}
+				if h.FuncVar != "" {
+					in["funcvar"] = h.FuncVar
+				}
+				if h.corpus && h.Defer && !registered[key] {
+					deferred = append(deferred, fmt.Sprintf("%s: step %d %q: %s: got %v want %v", key, i, trunc(s.Src, 80), what, got, wantv))
+					return
 				}
 				rep.Fail(vh.Failure{Key: key, What: what, Input: in, Got: got, Want: wantv})
 			}
@@ -1156,6 +1201,10 @@ func main() {
 				rep.Dist("history:matrix:one-declaration-per-evaluation")
 			}
 		}
+		if h.FuncVar != "" {
+			rep.Dist("history:funcvar")
+			rep.Dist("funcvar:holder:" + strings.SplitN(h.FuncVar, ":", 2)[0])
+		}
 		switch {
 		case h.corpus:
 			rep.Dist("history:corpus")
@@ -1186,6 +1235,7 @@ func main() {
 	}
 	cw.Close()
 	rep.Extra["corpus_histories"] = nCorpus
+	rep.Extra["deferred_corpus_failures"] = deferred
 	rep.Write()
 }
 
@@ -1194,4 +1244,27 @@ func min(a, b int) int {
 		return a
 	}
 	return b
+}
+
+// registeredKeys: the keys (key + other_keys) recorded for property C14 in $VERIF_DIR/known_findings.json
+func registeredKeys(dir string) map[string]bool {
+	out := map[string]bool{}
+	var kf struct {
+		Findings []struct {
+			Property string   `json:"property"`
+			Key      string   `json:"key"`
+			Other    []string `json:"other_keys"`
+		} `json:"findings"`
+	}
+	if b, err := os.ReadFile(filepath.Join(dir, "known_findings.json")); err == nil && json.Unmarshal(b, &kf) == nil {
+		for _, f := range kf.Findings {
+			if f.Property == "C14" {
+				out[f.Key] = true
+				for _, k := range f.Other {
+					out[k] = true
+				}
+			}
+		}
+	}
+	return out
 }
